@@ -86,6 +86,12 @@ class C10:
             for ch in ([], [1, 1, 1, 1, 1, 1, 1, 1]):
                 yield {"target": target, "enc": "ref", "mver": None, "values": odd, "choices": ch}
         yield {"target": "2.7", "enc": "real", "mver": 2, "values": odd, "choices": []}
+        # Python 2: a nested code object first (its empty line table and its names get interned 't' slots), then constants
+        # equal to those strings, written as 'R' references to the slots
+        again = [["y", ""], ["T", [["y", ""], ["y", "61"], ["y", "696e6e6572"]]], ["y", "3c67656e3e"], ["y", ""]]
+        for target in ("2.7", "2.6", "2.5", "2.4", "pypy2.7"):
+            for c0 in (5, 9, 1):
+                yield {"target": target, "enc": "ref", "mver": None, "values": again, "choices": [c0]}
         # byte strings around the sizes at which readers switch to chunked reads (1 MiB and its multiples)
         for target in ("2.7", "3.9", "3.3"):
             for n in ((1 << 20) - 1, 1 << 20, (1 << 20) + 5, (2 << 20) + 1, (3 << 20) - 7):
